@@ -70,6 +70,28 @@ class Logic:
         # total order of Variables (Variable.__lt__ compares str()): strict total order on Node
         self.vlt = z3.Function("var_lt", self.Node, self.Node, self.B)
         self._vlt_axioms_added = False
+        # a small algebra of Variable objects (DESIGN §2.2): base variable, subscript relation, the plain variable with the same
+        # name and mark, the counterfactual variable with the same name / mark and a given subscript set
+        self.base = z3.Function("get_base", self.Node, self.Node)
+        self.ivs = z3.Function("has_subscript", self.Node, self.Node, self.B)
+        self.plain = z3.Function("plain_variable_like", self.Node, self.Node)
+        self._var_axioms_added = False
+
+    def var_algebra(self):
+        """Axioms of the Variable algebra (data invariants of y0.dsl.Variable / Intervention / CounterfactualVariable)."""
+        if not self._var_axioms_added:
+            self._var_axioms_added = True
+            b, ivs, plain = self.base, self.ivs, self.plain
+            self.add_axioms(set(), [
+                self.forall(1, lambda x: self.And(self.Not(self.is_cf(b(x))), self.Not(self.is_intervention(b(x))), b(b(x)) == b(x))),
+                self.forall(2, lambda x, i: self.Implies(ivs(x, i), self.And(self.is_cf(x), self.is_intervention(i)))),
+                self.forall(1, lambda x: self.Implies(self.is_cf(x), self.exists(1, lambda i: ivs(x, i)))),
+                self.forall(1, lambda x: self.Not(self.And(self.is_cf(x), self.is_intervention(x)))),
+                self.forall(1, lambda x: self.And(self.Not(self.is_cf(plain(x))), b(plain(x)) == b(x))),
+                self.forall(1, lambda x: self.Implies(self.is_intervention(x), self.is_intervention(plain(x)))),
+                self.forall(1, lambda x: self.Implies(self.And(self.Not(self.is_cf(x)), self.Not(self.is_intervention(x))), self.Not(self.is_intervention(plain(x))))),
+            ])
+        return self.base, self.ivs, self.plain
 
     # ---------------------------------------------------------------- axioms with relevance
     def add_axioms(self, needs, formulas):
